@@ -91,9 +91,29 @@ class Session(object):
         self.it.frames.append(self.top)
         return self.top
 
+    def reset_top(self):
+        """forget anything harness-level helper evaluations left in the top-level frame"""
+        top = self.top
+        top.scopes = [[]]
+        top.loops = []
+        top.ret_c = self.vc.CF
+        top.dead = self.vc.CF
+        top.not_dead = self.vc.CT
+
+    def nosink(self, cond, exc):
+        """sink for harness-level lifts: operations on 'no value' alternatives are ignored"""
+        self.harness_raises = getattr(self, "harness_raises", [])
+        if not isinstance(exc, UnboundLocalError):
+            self.harness_raises.append((cond, exc))
+
+    def lift(self, f, args):
+        """harness-level lifted operation (never touches interpreter frames)"""
+        return self.vc.lift(f, list(args), self.vc.CT, self.nosink)
+
     def call(self, f, args, kwargs=None, pc=None):
         """call f; returns (value, raised) where raised = [(Cond, exception)] escaping the call"""
         top = self.top
+        self.reset_top()
         top.scopes.append([])
         try:
             v = self.it.call(f, list(args), dict(kwargs or {}), pc or self.vc.CT)
@@ -104,6 +124,7 @@ class Session(object):
 
     def call_method(self, recv, name, args=(), kwargs=None, pc=None):
         top = self.top
+        self.reset_top()
         top.scopes.append([])
         try:
             v = self.it.call_method(recv, name, list(args), dict(kwargs or {}), top, pc or self.vc.CT)
@@ -345,35 +366,74 @@ def _invoke(modname, fname, args):
     return guarded(fn, args)
 
 
-def run_tasks(fn, tasks, procs=None):
-    """run fn over tasks in worker processes (fork); returns list of results in task order"""
+def _child(modname, fname, args, path):
+    import pickle
+
+    res = _invoke(modname, fname, args)
+    tmp = path + ".tmp"
+    with open(tmp, "wb") as f:
+        pickle.dump(res, f)
+    os.replace(tmp, path)
+
+
+def run_named_tasks(modname, tasks, procs=None, task_timeout=None):
+    """tasks: [(function name, args tuple)] all in module modname.  One forked process per task,
+    at most `procs` at a time, each with a wall-clock limit; a task whose process dies or runs
+    out of time yields an 'inconclusive' result (never a pass)."""
     import multiprocessing as mp
+    import pickle
+    import shutil
+    import tempfile
 
     if procs is None:
         procs = min(len(tasks), int(os.environ.get("VERIF_PROCS", "14")))
-    if procs <= 1 or len(tasks) <= 1:
-        return [guarded(fn, t) for t in tasks]
-    ctx = mp.get_context("fork")
-    with ctx.Pool(procs, maxtasksperchild=1) as pool:
-        rs = [pool.apply_async(_invoke, (fn.__module__, fn.__name__, t)) for t in tasks]
-        out = []
-        for r in rs:
-            out.append(r.get())
-    return out
-
-
-def run_named_tasks(modname, tasks, procs=None):
-    """tasks: [(function name, args tuple)] all in module modname"""
-    import multiprocessing as mp
-
-    if procs is None:
-        procs = min(len(tasks), int(os.environ.get("VERIF_PROCS", "14")))
-    if procs <= 1 or len(tasks) <= 1:
+    if task_timeout is None:
+        task_timeout = float(os.environ.get("VERIF_TASK_TIMEOUT", "1500" if tier() == "quick" else "7200"))
+    if procs <= 1 and len(tasks) <= 1:
         return [_invoke(modname, f, a) for f, a in tasks]
     ctx = mp.get_context("fork")
-    with ctx.Pool(procs, maxtasksperchild=1) as pool:
-        rs = [pool.apply_async(_invoke, (modname, f, a)) for f, a in tasks]
-        return [r.get() for r in rs]
+    d = tempfile.mkdtemp(prefix="verif_tasks_", dir="/var/tmp")
+    results = [None] * len(tasks)
+    running = {}
+    nxt = 0
+    try:
+        while nxt < len(tasks) or running:
+            while nxt < len(tasks) and len(running) < procs:
+                f, a = tasks[nxt]
+                path = os.path.join(d, "%d.pkl" % nxt)
+                p = ctx.Process(target=_child, args=(modname, f, a, path))
+                p.start()
+                running[nxt] = (p, path, time.time())
+                nxt += 1
+            time.sleep(0.05)
+            for i in list(running):
+                p, path, t0 = running[i]
+                if os.path.exists(path):
+                    with open(path, "rb") as fh:
+                        results[i] = pickle.load(fh)
+                    p.join(5)
+                    del running[i]
+                elif not p.is_alive():
+                    p.join(1)
+                    if os.path.exists(path):
+                        continue
+                    results[i] = {"inconclusive": ["task %s%r: worker process ended without a result (exit code %r)" % (tasks[i][0], tasks[i][1], p.exitcode)]}
+                    del running[i]
+                elif time.time() - t0 > task_timeout:
+                    p.terminate()
+                    p.join(5)
+                    results[i] = {"inconclusive": ["task %s%r: exceeded the task time limit of %.0f s" % (tasks[i][0], tasks[i][1], task_timeout)]}
+                    del running[i]
+    finally:
+        for p, path, t0 in running.values():
+            p.terminate()
+        shutil.rmtree(d, ignore_errors=True)
+    return results
+
+
+def run_tasks(fn, tasks, procs=None):
+    """run fn over tasks in worker processes; returns list of results in task order"""
+    return run_named_tasks(fn.__module__, [(fn.__name__, t) for t in tasks], procs)
 
 
 # -------------------------------------------------------------------------------------------------
@@ -435,7 +495,7 @@ def finish(chk, level="model_checking"):
         cex["replay_path"] = path
         cex["replay_result"] = res
         if res.get("violates") is True:
-            key = res.get("finding_key") or cex.get("finding_key")
+            key = res.get("finding_key") or cex.get("finding_key") or (payload.get("finding_key") if isinstance(payload, dict) else None)
             hit = None
             for k in known:
                 if key is not None and k.get("key") == key:
@@ -449,6 +509,9 @@ def finish(chk, level="model_checking"):
             harness_err.append("counterexample for %s did not reproduce on the real code: %s" % (cex.get("vc"), json.dumps(res)[:400]))
         else:
             harness_err.append("replay failed for %s: %s" % (cex.get("vc"), json.dumps(res)[:400]))
+    nsat = sum(1 for v in chk.vcs if v["result"] == "sat")
+    if nsat and not chk.counterexamples:
+        harness_err.append("%d verification condition(s) are satisfiable but no replayable counterexample was produced" % nsat)
     wall = time.time() - chk.t0
     # evidence
     total_q = sum(s["total"] for s in chk.stats)
